@@ -198,6 +198,9 @@ class Broken(Exception):
     pass
 
 
+CALLABLE = {}   # C++ function name -> Lean name of its whole-function translation (Funcs.lean)
+
+
 BUILTIN = {
     "bool": ("bool", 1, False),
     "char": ("int", 8, True), "signed char": ("int", 8, True), "unsigned char": ("int", 8, False),
@@ -408,6 +411,9 @@ class Tr:
                 else:
                     v = (1 << (w - 1)) if s else 0
                 return f"{v}#{w}"
+            if nm in CALLABLE:
+                args = [self.expr(a) for a in inner[1:]]
+                return "(Gen." + CALLABLE[nm] + " " + " ".join(args) + ")"
             raise Broken(f"call to {nm}")
         if k == "UnaryExprOrTypeTraitExpr" and n.get("name") == "sizeof":
             ct = ctype(n)
@@ -800,6 +806,10 @@ def main():
     status = {}
     files = {}
     for s in sites:
+        if s.get("select", "function") == "function" and s.get("file") == "Funcs" and "record" not in s \
+           and s["name"] != "operator()":
+            CALLABLE[s["name"]] = s["lean"]
+    for s in sites:
         try:
             txt = translate_site(s, consts, sizes, key)
             status[s["lean"]] = "ok"
@@ -812,7 +822,8 @@ def main():
         files.setdefault(s.get("file", "Sites"), []).append(txt)
     for f, parts in files.items():
         L = ["-- GENERATED by gen/translate.py from /repo/elfio (clang-14 AST). Do not edit.",
-             "import ElfioVerif.Gen.Layout", "set_option linter.unusedVariables false",
+             "import ElfioVerif.Gen.Layout" + ("" if f == "Funcs" else "\nimport ElfioVerif.Gen.Funcs"),
+             "set_option linter.unusedVariables false",
              "namespace ElfioVerif.Gen", ""] + parts + ["end ElfioVerif.Gen"]
         write_if_changed(os.path.join(OUT, f + ".lean"), "\n".join(L) + "\n")
     os.makedirs(BUILD, exist_ok=True)
